@@ -201,6 +201,12 @@ def correspondence(ctx):
     from stepup.core import api as su_api
     from stepup.core.path import apply_affixes, get_affixes, translate, translate_back
     rng = ctx.rng
+    if not hasattr(ctx, "facts"):
+        # the translator failed closed: gen/GenPath.v is stale, so model-versus-code comparison would
+        # be meaningless; the implementation-only parts (real tree, oracle, search) still run
+        ctx.notes.append("E1 model comparison skipped: translator failed, generated model is stale")
+        realtree(ctx)
+        return
     facts = ctx.facts
     msgs = facts["functions"]["apply_affixes"]["raise_msgs"]
     checks, descr = [], []
@@ -452,6 +458,32 @@ def check_tuple(cwd, root, here, wd, p, facts):
     return out
 
 
+def apply_affixes_contract(q, l, t):
+    """The documented contract of apply_affixes (same as apply_affixes_spec in model/PathModel.v)."""
+    if l not in ("", "./"):
+        return ("raise", 1)
+    if l and q.startswith(("/", "./")):
+        return ("raise", 2)
+    if t not in ("", "/"):
+        return ("raise", 3)
+    if t and (l + q).endswith("/"):
+        return ("raise", 4)
+    return ("ok", l + q + t)
+
+
+def check_affix_contract(q, l, t, facts):
+    from stepup.core.path import apply_affixes, get_affixes
+    msgs = facts["functions"]["apply_affixes"]["raise_msgs"]
+    out = []
+    res = call_raising(apply_affixes, msgs, q, l, t)
+    exp = apply_affixes_contract(q, l, t)
+    if res != exp:
+        out.append(("oracle:apply_affixes:contract", f"apply_affixes({q!r}, {l!r}, {t!r}) gives {res}, documented contract {exp}"))
+    elif res[0] == "ok" and q and not q.endswith("/") and not q.startswith("./") and get_affixes(res[1]) != (l, t):
+        out.append(("oracle:get_affixes:reads-back", f"get_affixes({res[1]!r}) = {get_affixes(res[1])}, applied {(l, t)}"))
+    return out
+
+
 def check_exec(root, wd, facts):
     from path import Path
     out = []
@@ -486,6 +518,11 @@ def run_oracle(ctx, n):
         ctx.count("oracle_abs_path" if p.startswith("/") else "oracle_abs_workdir" if wd.startswith("/") else "oracle_relative")
         for sig, detail in check_tuple(cwd, root, here, wd, p, facts):
             found.setdefault(sig, (detail, {"cwd": cwd, "root": root, "here": here, "workdir": wd, "path": p}))
+    for _ in range(n // 3):
+        q, l, t = rand_path(rng, 3), rng.choice(["", "./", "./", "../", "."]), rng.choice(["", "/", "/", "//"])
+        ctx.case(("oracle-affix", q, l, t), bool(l or t))
+        for sig, detail in check_affix_contract(q, l, t, facts):
+            found.setdefault(sig, (detail, {"apply_affixes": [q, l, t]}))
     for _ in range(n // 3):
         root = rand_root(rng)
         if root.startswith("//"):
@@ -545,6 +582,9 @@ def replay(ctx, obj):
     print("replaying", w)
     if {"cwd", "root", "here", "workdir", "path"} <= set(w):
         for sig, detail in check_tuple(w["cwd"], w["root"], w["here"], w["workdir"], w["path"], ctx.facts):
+            ctx.add_failure("oracle", sig, sig, detail, witness=w)
+    elif "apply_affixes" in w:
+        for sig, detail in check_affix_contract(*w["apply_affixes"], ctx.facts):
             ctx.add_failure("oracle", sig, sig, detail, witness=w)
     elif {"root", "workdir"} <= set(w) and "path" not in w:
         res, _ = check_exec(w["root"], w["workdir"], ctx.facts)
